@@ -241,7 +241,7 @@ ilu_cpivotL(
 	    case SMILU_3:
                 temp = c_sgn(&lu_col_ptr[pivptr]);
                 cc_mult(&temp, &temp, &drop_sum);
-                c_add(&lu_col_ptr[pivptr], &lu_col_ptr[pivptr], &drop_sum);
+                c_add(&lu_col_ptr[pivptr], &lu_col_ptr[pivptr], &temp);
 		break;
 	    case SILU:
 	    default:
